@@ -111,6 +111,13 @@ CHECKS = {
              "and the reference action.",
         technique="TLA+ rotation action + contract; TLC exhaustive shapes x nodes; TLC trace validation of before/after heaps",
         ref="5/C15"),
+    "C18": dict(
+        text="Layout.tla states the tidy-tree invariants over a heap and exact (scaled dyadic) coordinates. Every shape up to the bound, as plain and as expression-shaped "
+             "nodes, under three unit-multiplier pairs, is laid out by the real TreeLayout (first call, second call on the same nodes, fresh mirrored tree) and TLC validates "
+             "each clause: y = depth*unit, children strictly left/right, parent centred, level order with >= one unit between neighbours, bounds = bounding box, repeatable, "
+             "mirrored. The contour defect of the pinned tree is a known finding listed shape by shape; any unlisted failing (clause, shape) is a violation.",
+        technique="TLA+ tidy-tree invariants; TLC trace validation of recorded coordinates (first / repeated / mirrored layouts) over all shapes",
+        ref="5/C18"),
 }
 
 ALL = ["C%02d" % i for i in range(1, 19)]
